@@ -113,6 +113,8 @@ func WitnessAll(rec *ev.Rec) {
 	WitnessF28(rec)
 	WitnessF29(rec)
 	WitnessF30(rec)
+	WitnessF31(rec)
+	WitnessF32(rec)
 }
 
 // ---- F1 / F2 / F3: gNMI encoding and decoding gaps ------------------------------------------------
@@ -291,6 +293,68 @@ func WitnessF30(rec *ev.Rec) {
 		}
 		if got := model.ObserveNorm(v, root); len(model.LeafMap(got, model.InstOpts{})) != 0 {
 			return true, "after deleting k then v of /top/keyed/k-enum[k=GREEN] the tree still holds " + fmt.Sprint(model.LeafMap(got, model.InstOpts{}))
+		}
+		return false, ""
+	})
+}
+
+// ---- F31 / F32 --------------------------------------------------------------------------------------
+
+const (
+	F31 = "F31-decimal-key-exponent"
+	F32 = "F32-multikey-json-order"
+)
+
+// WitnessF31: a decimal64 list key >= 1e6 is rendered with an exponent by ygot, so the RFC 7950
+// canonical key string does not match the existing entry and SetNode replaces it (losing its leaves).
+func WitnessF31(rec *ev.Rec) {
+	rec.Witness(F31, func() (bool, string) {
+		v := variants.Get("vtu")
+		a := model.NewNode(v.Root)
+		k := Child(Child(a, "Top"), "Keyed")
+		f := k.SI.ByName["KDec"]
+		key := model.Val{K: model.KDec, F: 1234567.5, FD: 3}
+		e := model.NewEntry(f, []model.Val{key})
+		e.N.Leaf["V"] = model.Val{K: model.KStr, S: "x"}
+		k.List["KDec"] = []*model.Entry{e}
+		root := model.Build(a)
+		sch := &ytypes.Schema{Root: root, SchemaTree: v.Schema().SchemaTree, Unmarshal: v.Schema().Unmarshal}
+		p := model.PathProto(append(model.EntryElems([]model.PElem{{Name: "top"}, {Name: "keyed"}}, f, 0, e.Key), model.PElem{Name: "k"}))
+		err := ytypes.UnmarshalSetRequest(sch, &gpb.SetRequest{Update: []*gpb.Update{{Path: p, Val: model.ScalarTV(key)}}})
+		if err != nil {
+			return true, "update of /top/keyed/k-dec[k=1234567.5]/k: " + err.Error()
+		}
+		if d := model.Diff(a, model.ObserveNorm(v, root), model.DiffOpts{}); len(d) > 0 {
+			return true, "writing the key leaf of the existing entry /top/keyed/k-dec[k=1234567.5] through the canonical key string changed the entry: " + JoinDiff(d)
+		}
+		return false, ""
+	})
+}
+
+// WitnessF32: with wrapper unions the entries of a multi-key list were ordered by pointer addresses,
+// so equal trees rendered differently. Ten independent builds of one tree must render identically.
+func WitnessF32(rec *ev.Rec) {
+	rec.Witness(F32, func() (bool, string) {
+		v := variants.Get("vtw")
+		a := model.NewNode(v.Root)
+		k := Child(Child(a, "Top"), "Keyed")
+		f := k.SI.ByName["Mk3"]
+		en := f.KeyFields[0].Type
+		for i := 0; i < 4; i++ {
+			key := []model.Val{model.EnumVal(en, en.Enum[0]), {K: model.KInt64, I: 7}, {K: model.KInt16, I: int64(i)}}
+			k.List["Mk3"] = append(k.List["Mk3"], model.NewEntry(f, key))
+		}
+		var first string
+		for i := 0; i < 10; i++ {
+			js, err := ygot.Marshal7951(model.Build(a))
+			if err != nil {
+				return true, err.Error()
+			}
+			if i == 0 {
+				first = string(js)
+			} else if string(js) != first {
+				return true, "two builds of the same vtw tree with four /top/keyed/mk3 entries render differently:\n" + first + "\n" + string(js)
+			}
 		}
 		return false, ""
 	})
